@@ -706,6 +706,8 @@ def check_provenance(ctx):
     # the keys the branch reads from the anchor node are the keys returned: nothing binds them again afterwards (a later
     # "sanity check" that demotes the record to BO = NO = -1 takes records out of their place in the order)
     key_vars = {norm(t_) for st_ in list(walk_stmts(branch.body)) + list(walk_stmts(branch.orelse)) if isinstance(st_, ast.Assign) and "tags[" in norm(st_.value) for t_ in st_.targets}
+    start_vars = {norm(t_) for st_ in list(walk_stmts(branch.body)) + list(walk_stmts(branch.orelse)) if isinstance(st_, ast.Assign) and len(st_.targets) == 1 and isinstance(st_.targets[0], ast.Name) and role_name_is_start(pa, st_.targets[0].id) for t_ in st_.targets}
+    key_vars |= start_vars
     rets_ = [norm(e_) for r_ in walk_own(pa.node) if isinstance(r_, ast.Return) and isinstance(r_.value, ast.Tuple) for e_ in r_.value.elts]
     for st_ in walk_stmts(pa.node.body):
         if isinstance(st_, ast.Assign) and pa.before(branch, st_) and not any(x_ is st_ for x_ in ast.walk(branch)):
@@ -715,7 +717,7 @@ def check_provenance(ctx):
                 from .c09 import guards_of as _gof
 
                 gs_ = [norm(g_) for g_, _p in _gof(pa.node, st_)]
-                ctx.violated("R08.2", pa.where(st_), f"`{norm(st_)[:50]}` binds the key{'s' if len(hit) > 1 else ''} {', '.join(hit)} again after they were read from the anchor node" + (f" (when `{gs_[0][:50]}`)" if gs_ else "") + ": records it applies to are not ordered by the BO / NO of their anchor (with -1 they are put behind all tagged records)", key_of(pa, f"key-rebound-after-anchor:{','.join(hit)}"))
+                ctx.violated("R08.2", pa.where(st_), f"`{norm(st_)[:50]}` binds the key{'s' if len(hit) > 1 else ''} {', '.join(hit)} again after they were read from the anchor node" + (f" (when `{gs_[0][:50]}`)" if gs_ else "") + ": records it applies to are not ordered by the BO / NO / start offset of their anchor (with -1 they are put behind all tagged records; a start clamped to a node length that is 0 in the graph as `sort` loads it makes all reads of a node compare equal)", key_of(pa, f"key-rebound-after-anchor:{','.join(hit)}"))
     # decision table of the branch test over (count('>'), count('<'))
     def atom_of(e, depth=0):
         if isinstance(e, ast.Call) and isinstance(e.func, ast.Attribute) and e.func.attr == "count" and e.args:
